@@ -40,6 +40,6 @@ cat > $dst/meta.json <<EOT
  "checks_run_against_it": { ${res%, } }
 }
 EOT
-rm -rf /verif/build/evidence_alt/replay
+rm -rf /verif/build/evidence_alt_*/replay
 cd /; git -C /repo worktree remove --force $wt; rm -rf $out /tmp/mut/${id}_demo.rs /tmp/mut/$id.prompt
 echo "stored in $dst"
